@@ -121,3 +121,29 @@ func addTable(b []byte, tag string, data []byte) []byte {
 func glyphID(i int) glyph.ID { return glyph.ID(i) }
 
 func cmapFormat4(m map[uint16]glyph.ID) cmap.Format4 { return cmap.Format4(m) }
+
+// aliasGuard remembers byte slices returned by the library and verifies
+// later - after further library calls - that they still hold the same
+// bytes, i.e. that results are not aliased to reusable internal buffers.
+type aliasGuard struct {
+	items []aliasItem
+}
+
+type aliasItem struct {
+	what       string
+	live, copy []byte
+}
+
+func (g *aliasGuard) Keep(what string, b []byte) {
+	g.items = append(g.items, aliasItem{what, b, append([]byte{}, b...)})
+}
+
+func (g *aliasGuard) Check(k *mon.Case, witness string) bool {
+	for _, it := range g.items {
+		if !bytes.Equal(it.live, it.copy) {
+			k.Fail("mismatch", witness, "the %d bytes returned by %s were modified by a later library call (first difference at byte %d)", len(it.copy), it.what, firstDiff(it.live, it.copy))
+			return false
+		}
+	}
+	return true
+}
